@@ -188,6 +188,12 @@ def replace_template(ctx, obs, fd, fr, qd, qr, assigned_any, must):
             else:
                 obs.bad('TAB', qr, con, f'the segment is guarded by {sorted(g)}', w)
     # (4) attributes read when rebuilding exist on every file
+    if not looked:
+        # the template evaluation saw no entity look-up in _replace (the look-ups moved behind a partial / a helper it cannot
+        # follow): which attributes _replace needs is not known, the clause is owed for every entity _deconstruct parses
+        for e in sorted(assigned_any - {'relpath', 'layout', '_meta'}):
+            obs.unk('ASSIGN', qd, f'attribute {e!r} is assigned on every path of _deconstruct',
+                    'the entity look-ups of _replace were not recognised (restructured): not decided', where(prog, fd, fd.node))
     for e in looked:
         obs.check(e in must, 'ASSIGN', qd, f'attribute {e!r} is assigned on every path of _deconstruct',
                   f'`self.{e}` is not assigned on some path (e.g. a path without directory segments): _replace raises '
